@@ -40,6 +40,8 @@ def features(m, end):
         f.add('heart_return')
     if st['heart_after_heart']:
         f.add('heart_after_heart')
+    if st['heart_return_to_self']:
+        f.add('heart_return_to_self')
     if st['jump_back_over_first_read']:
         f.add('jump_into_prefix_after_read')
     if st['stdin_reads']:
